@@ -67,8 +67,14 @@ func TestVerif(t *testing.T) {
 	}
 	if c.Replay != "" {
 		var h rh.History
-		if err := c.ReadReplay(&h); err != nil {
-			t.Fatal(err)
+		if err := c.ReadReplay(&h); err != nil || len(h.Ops) == 0 {
+			// a failure of the concurrent phase has no operation history: re-run the phase
+			for _, f := range rh.ConcurrentSameSlot(60, 50000) {
+				c.Fail(f.Sig, f.Detail, "concurrent same-slot phase")
+				fmt.Printf("replay: %s: %s\n", f.Sig, f.Detail)
+			}
+			rh.WriteCases(c, nil)
+			return
 		}
 		o := rh.RunFixed(t, h.Name, h.Profile, h.Pools, h.Ops, mon, 8)
 		add(o)
@@ -91,6 +97,13 @@ func TestVerif(t *testing.T) {
 			}
 			add(rh.RunGenerated(t, fmt.Sprintf("gen-%d", i), g, mon, nm, 2))
 		}
+	}
+	if c.Replay == "" {
+		// concurrent phase (both tiers): same key and origin added from several goroutines at once
+		for _, f := range rh.ConcurrentSameSlot(c.N(30, 120), c.N(20000, 50000)) {
+			c.Fail(f.Sig, f.Detail, "concurrent same-slot phase: 4 goroutines advertise sequences 1..4 of one origin for one key while RemoveRoutesFromPeer scans the table")
+		}
+		c.Count("concurrent-same-slot-phase")
 	}
 	if c.Thorough() && c.Replay == "" {
 		for _, f := range rh.Stress(c.Rand.Fork(), 8, 3000) {
